@@ -221,6 +221,19 @@ def trivial_split(l, L, feed):
     return bool((np.abs(l[m] / feed[m] - phi) <= 1e-3).all())
 
 
+def box_corner_split(l, L, feed):
+    """Two non-empty, different liquids in which EVERY chemical is either entirely in one liquid or split exactly in
+    half: a vertex of the optimisers' search box [0, mol] x ... x [0, mol/2], not an equilibrium (some activity is 0
+    in one liquid and positive in the other)."""
+    feed = np.asarray(feed, float)
+    m = feed > 0
+    if not (l.sum() > 0 and L.sum() > 0) or int(m.sum()) < 2:
+        return False
+    fr = L[m] / feed[m]
+    at = (np.abs(fr) <= 1e-9) | (np.abs(fr - 1.0) <= 1e-9) | (np.abs(fr - 0.5) <= 1e-9)
+    return bool(at.all()) and not trivial_split(l, L, feed)
+
+
 def split_exactly_half(l, L, feed):
     """Some chemical sits exactly half in each liquid (an optimiser bound / sampling vertex, not an optimum)."""
     feed = np.asarray(feed, float)
@@ -373,6 +386,9 @@ def _lle_fresh(ch, ctx, methods):
         two = False
     ctx.cell('lle:two_liquids' if two else 'lle:one_liquid')
     if two:
+        fails.check(not box_corner_split(l, L, feed), f'lle.degenerate|method={mtag}|corner',
+                    lambda: f'{names} feed={feed.tolist()} T={T}: every chemical is entirely in one liquid or split '
+                            f'exactly in half (a corner of the search box): l={l.tolist()} L={L.tolist()}')
         r, tol, worst = activity_ratio(th, feed, l, L, T, None if mtag == 'pseudo' else G_TOL_GLOBAL)
         if r is not None:
             ctx.metric_max(f'lle.isoactivity:{mtag}', r)
@@ -590,28 +606,41 @@ def prop_lle_global_history(ch, ctx):
     the same T whose composition shares exactly one mole fraction with the final feed (or, one case in four, is an
     independent composition / at another T), then: stream s with the default use_cache=True, identically treated
     clone c with use_cache=False, history-free stream f.  The iso-activity clause is not evaluated here (C15-F9)."""
-    org = ch.choice('organic', ORGANICS)
-    co = ch.choice('cosolvent', COSOLVENTS)
-    names = ['Water', org, co]
-    order = ch.permutation('order', 3)
+    # Three feed families.  'water-excess' (also Hypothesis' all-minimal first example that every shard starts
+    # with): 3 chemicals, water in 2.5-5x molar excess over the organic plus a little co-solvent, so the chemical with
+    # the largest MASS (whose bound the global methods halve) is not the one with the most MOLES.  'comparable-4':
+    # water, an alkane, ethanol and a second alcohol in comparable amounts (within a factor 5) at 285-320 K, always
+    # with shgo: on about a quarter of these scipy's shgo ends without success and LLE must fall back to differential
+    # evolution.  'free': 3 chemicals, independent amounts.
+    fk = ch.choice('feed.kind', ['water-excess', 'comparable-4', 'comparable-4', 'free'])
+    if fk == 'comparable-4':
+        org = ch.choice('alkane', ['Octane', 'Hexane', 'Heptane'])
+        co = 'Ethanol'
+        names = ['Water', org, co, ch.choice('alcohol', ['Butanol', 'Propanol', 'Hexanol', 'Pentanol'])]
+    else:
+        org = ch.choice('organic', ORGANICS)
+        co = ch.choice('cosolvent', COSOLVENTS)
+        names = ['Water', org, co]
+    n = len(names)
+    order = ch.permutation('order', n)
     names = [names[i] for i in order]
     th = chem.thermo_of(names)
     tmo.settings.set_thermo(th)
     method = ch.choice('method', ['shgo', 'shgo', 'differential evolution'])
+    if fk == 'comparable-4':
+        method = 'shgo'
     mtag = 'shgo' if method == 'shgo' else 'de'
-    T = ch.float('T', T_LO, T_HI)
-    # Two feed families.  'water-excess' (2 in 3, and Hypothesis' all-minimal first example that every shard starts
-    # with): water in 2.5-5x molar excess over the organic plus a little co-solvent, so the chemical with the largest
-    # MASS (the one whose bound the global methods halve) is not the one with the most MOLES; 'free': independent
-    # amounts.  Fixed multipliers keep the minimal example a real shared-fraction case.
-    fk = ch.choice('feed.kind', ['water-excess', 'water-excess', 'free'])
+    T = ch.float('T', T_LO, 320.0 if fk == 'comparable-4' else T_HI)
     if fk == 'water-excess':
         w = ch.logfloat('feed.water', -1.0, 1.0)
         o = w / ch.float('feed.excess', 2.5, 5.0)
         amount = {'Water': w, org: o, co: o * ch.choice('feed.cosolvent', [0.2, 0.5, 0.05])}
-        feed = np.array([amount[n] for n in names])
+        feed = np.array([amount[x] for x in names])
+    elif fk == 'comparable-4':
+        feed = ch.logfloat('feed.base', -1.0, 1.5) * np.array([ch.logfloat(f'feed.f{i}', -0.35, 0.35) for i in range(n)])
     else:
-        feed = np.array([ch.logfloat(f'feed.f{i}', -1.0, 1.0) for i in range(3)]) * np.array([1.0, 0.6, 0.25])
+        # fixed multipliers keep an all-minimal draw a real shared-fraction case
+        feed = np.array([ch.logfloat(f'feed.f{i}', -1.0, 1.0) for i in range(n)]) * np.array([1.0, 0.6, 0.25])
     ctx.cell(f'lle.ghist:feed={fk}')
     MWs = th.chemicals.MW
     if int(np.argmax(feed * MWs)) != int(np.argmax(feed)) and feed[int(np.argmax(feed * MWs))] < 0.5 * feed.max():
@@ -621,7 +650,7 @@ def prop_lle_global_history(ch, ctx):
     hfeed = draw_shared(ch, 'h', feed) if hk == 'share' else None
     if hfeed is None:
         hk = 'other'
-        hfeed = [ch.logfloat(f'h.f{i}', -1.0, 1.0) for i in range(3)]
+        hfeed = [ch.logfloat(f'h.f{i}', -1.0, 1.0) for i in range(n)]
     hT = T if ch.int('h.sameT', 0, 7) > 0 else min(T_HI, max(T_LO, T + ch.choice('h.dT', [-20.0, -2.0, 2.0, 20.0])))
     htop = ch.choice('h.top', [None] + names)
     hfeed = np.array(hfeed, float)
@@ -637,8 +666,8 @@ def prop_lle_global_history(ch, ctx):
     s, c = fresh(hfeed, hT), fresh(hfeed, hT)
     for x in (s, c):
         ctx.call('lle.call', lambda: x.lle(hT, top_chemical=htop), region=f'method={mtag},hist=0')
-        put_feed(x, feed, [1.0, 1.0, 1.0])
-    present = (1, 1, 1)
+        put_feed(x, feed, [1.0] * n)
+    present = (1,) * n
     last = (present, hT, hfeed / hfeed.sum(), True, '')
     _, dT, dz = relation(last, present, T, feed / F)
     if dz == 'near':
@@ -652,6 +681,10 @@ def prop_lle_global_history(ch, ctx):
     rc = lle_call(ctx, c, T, None, top, False, f'{reg},hist=1,cache=0')
     fails = Failures(ctx)
     for tag, r in (('hist=0', rf), ('hist=1,cache=1', rs), ('hist=1,cache=0', rc)):
+        fails.check(not box_corner_split(r[0], r[1], feed), f'lle.degenerate|method={mtag}|corner',
+                    lambda: f'every chemical is entirely in one liquid or split exactly in half (a corner of the '
+                            f'search box): l={r[0].tolist()} L={r[1].tolist()}; {tag}; {names} method={method} '
+                            f'feed={feed.tolist()} T={T}')
         fails.check(min(r[0].min(), r[1].min()) >= -1e-12 * F and np.allclose(r[0] + r[1], feed, rtol=1e-9, atol=1e-12 * F),
                     f'lle.balance|method={mtag},{tag}|mismatch',
                     lambda: f'negative or unbalanced flows l={r[0].tolist()} L={r[1].tolist()} feed={feed.tolist()}')
